@@ -30,7 +30,7 @@ type specCtx struct {
 	depth     int
 	where     string
 	parent    *specCtx
-	lenient   bool   // check clauses: a local that does not exist at this exit makes the clause inapplicable
+	lenient   bool // check clauses: a local that does not exist at this exit makes the clause inapplicable
 	missing   bool
 	limited   string // name of the recursive spec function whose definitional axiom is being built
 }
@@ -71,6 +71,9 @@ func (ex *Exec) specHere(pos token.Pos) *specCtx {
 		if strings.HasPrefix(k, "$ri") {
 			if j := strings.Index(k, "."); j > 3 {
 				sc.stateVars["ri"+k[3:j]] = stateVar{k, typInt}
+				if x, ok := ex.rangeOps[k]; ok {
+					sc.vars["rx"+k[3:j]] = x
+				}
 			}
 		}
 	}
@@ -166,6 +169,35 @@ func (ex *Exec) specEval(sc *specCtx, e ast.Expr) (Val, bool) {
 	switch e := e.(type) {
 	case *ast.ParenExpr:
 		return ex.specEval(sc, e.X)
+	case *ast.CompositeLit:
+		// T{f1, f2, ...} or T{name: v, ...} for a struct type T
+		t := ex.lookupType(sc.pkgOr(ex), exprString(e.Type))
+		st := structOf(t)
+		if t == nil || st == nil || isPointer(t) {
+			ex.specErr(sc, "composite literal of non-struct type %s", exprString(e.Type))
+			return Val{I(0), typInt}, false
+		}
+		fs := make([]*T, st.NumFields())
+		for i := 0; i < st.NumFields(); i++ {
+			fs[i] = ex.zeroValue(st.Field(i).Type())
+		}
+		for i, el := range e.Elts {
+			if kv, ok := el.(*ast.KeyValueExpr); ok {
+				name := exprString(kv.Key)
+				for j := 0; j < st.NumFields(); j++ {
+					if st.Field(j).Name() == name {
+						v, _ := ex.specEval(sc, kv.Value)
+						fs[j] = ex.coerceSpec(v, st.Field(j).Type()).T
+					}
+				}
+				continue
+			}
+			if i < len(fs) {
+				v, _ := ex.specEval(sc, el)
+				fs[i] = ex.coerceSpec(v, st.Field(i).Type()).T
+			}
+		}
+		return Val{ex.mkStruct(t, fs), t}, true
 	case *ast.BasicLit:
 		switch e.Kind {
 		case token.INT:
@@ -656,6 +688,20 @@ func (ex *Exec) specCall(sc *specCtx, e *ast.CallExpr) (Val, bool) {
 	case "cid":
 		a := ex.specArgs(sc, e.Args)
 		return Val{App("cid", SInt, a[0].T), typInt}, true
+	case "fmtId":
+		// fmtId("format", args...): content identity of fmt.Sprintf(format, args...)
+		format, ok := "", false
+		if bl, isLit := e.Args[0].(*ast.BasicLit); isLit && bl.Kind == token.STRING {
+			if u, err := strconv.Unquote(bl.Value); err == nil {
+				format, ok = u, true
+			}
+		}
+		if !ok {
+			ex.specErr(sc, "fmtId needs a string literal format")
+			return Val{I(0), typInt}, false
+		}
+		a := ex.specArgs(sc, e.Args[1:])
+		return Val{ex.fmtIdTerm(format, a), typInt}, true
 	case "cat":
 		a := ex.specArgs(sc, e.Args)
 		return Val{App("catS", SSlice, a[0].T, a[1].T), types.NewSlice(types.Typ[types.Uint8])}, true
@@ -672,7 +718,7 @@ func (ex *Exec) specCall(sc *specCtx, e *ast.CallExpr) (Val, bool) {
 			ex.specErr(sc, "has: first argument is not a map")
 			return Val{True, typBool}, false
 		}
-		_, h := ex.mapGetIn(sc.st, a[0], mt, Val{a[1].T, mt.Key()})
+		_, h := ex.mapGetIn(sc.st, a[0], mt, a[1])
 		return Val{h, typBool}, true
 	case "slicesEq":
 		a := ex.specArgs(sc, e.Args)
